@@ -1002,7 +1002,7 @@ func ruleOPS4(c *Ctx) []Ob {
 			}
 		}
 	}
-	return o.list
+	return softenUndecided(o.list)
 }
 
 // ---------------------------------------------------------------- OPS5
@@ -1215,5 +1215,31 @@ func ruleOPS5(c *Ctx) []Ob {
 			report(fmt.Sprintf("Exists: field present=%v", has), got, why, has, fmt.Sprintf("Exists on a field that is present=%v", has))
 		}
 	}
-	return o.list
+	return softenUndecided(o.list)
+}
+
+// softenUndecided: when the abstract evaluator could not decide a single case of
+// a rule (the code is written in a way it does not follow: every obligation is
+// "not decided"), the rule does not apply; the obligations become information
+// instead of alarms. As soon as one case is decided, undecided ones stay alarms.
+func softenUndecided(l []Ob) []Ob {
+	decided := false
+	for _, ob := range l {
+		if ob.Status == OK || ob.Status == VIOLATED {
+			decided = true
+		}
+	}
+	if decided {
+		return l
+	}
+	out := make([]Ob, 0, 1)
+	for _, ob := range l {
+		if ob.Status == UNDECIDED {
+			ob.Status = INFO
+			ob.Msg = "not applicable to this code shape (the abstract evaluator does not follow it): " + ob.Msg
+			out = append(out, ob)
+			break
+		}
+	}
+	return out
 }
